@@ -712,3 +712,91 @@ for n_ in (0, 1, 4, 8, 128, 129, 200):
     u = unit(f"range.component_range[BIT_PAIRS={n_}]", RG, "Composer::component_range", [SELF, ("witness", sym("witness"))], c_entry("pairs", n_),
              consts=dict(CONSTS, BIT_PAIRS=n_))
     u.extra_contracts = RANGE_CON
+
+
+# ------------------------------------------------------------------ truncation gadget, per width (instances): second opinion for truncate.py
+TR = "src/composer/truncate.rs"
+NEG1 = P(0) - 1
+
+
+def rlow(nb):
+    return VOpaque("recompose_bits", [0, nb])
+
+
+def rhigh(nb):
+    return VOpaque("recompose_bits", [nb, 256])
+
+
+TRUNC_CON = dict(RANGE_CON)
+TRUNC_CON.update({
+    "self.bind_truncation_split": c_op("bind_truncation_split"),
+    "self.assert_canonical_truncation": c_op("assert_canonical_truncation"),
+    ".to_bits": lambda it, recv, a: VOpaque("to_bits", [recv]),
+    ".invert": lambda it, recv, a: VOpaque("invert", [recv]),
+    ".unwrap_or": lambda it, recv, a: VOpaque("havoc:diff_inverse") if isinstance(recv, VOpaque) and recv.name == "invert" else NotImplemented,
+})
+TRUNC_CON.pop("self.range_check_even", None)
+
+
+def c_component_truncate(n):
+    def c(it, recv, a):
+        """low = the N low bits of the witness (fresh), low < 2^N, then the split binding (input, low, N); returns low"""
+        w = a[0]
+        low = c_append_witness(it, None, [rlow(n)])
+        ev(it, "range_check", low, n)
+        ev(it, "bind_truncation_split", w, low, n)
+        return low
+    return c
+
+
+def c_bind_truncation_split(nb):
+    def c(it, recv, a):
+        """high = the bits above nb (fresh), high < 2^(255-nb), input == 2^nb * high + low, and the canonical-split guard"""
+        inp, low, _ = a
+        high = c_append_witness(it, None, [rhigh(nb)])
+        ev(it, "range_check", high, 255 - nb)
+        ev(it, "gate_add", cons({"q_l": VOpaque("pow_of_2", [nb]), "q_r": 1, "a": high, "b": low}))
+        rec = fresh_w(it)
+        ev(it, "assert_equal", rec, inp)
+        ev(it, "assert_canonical_truncation", high, low, nb)
+        return UNIT
+    return c
+
+
+def c_assert_canonical_truncation(nb):
+    def c(it, recv, a):
+        """with r - 1 = r_high * 2^nb + r_low:  diff = r_high - high in [0, 2^(255-nb));  is_top = [diff == 0] by the is-zero gadget
+        (inverse witness, product, is_top = 1 - product, diff * is_top = 0);  guard = is_top * (r_low - low) in [0, 2^nb)"""
+        high, low, _ = a
+        r_lo, r_hi = VOpaque("recompose_bits", [0, nb]), VOpaque("recompose_bits", [nb, 256])
+        ev(it, "gate_add", cons({"q_l": NEG1, "a": high, "q_c": r_hi}))
+        diff = fresh_w(it)
+        ev(it, "range_check", diff, 255 - nb)
+        inv = c_append_witness(it, None, [VOpaque("havoc:diff_inverse")])
+        ev(it, "gate_mul", cons({"q_m": 1, "a": diff, "b": inv}))
+        prod = fresh_w(it)
+        ev(it, "gate_add", cons({"q_l": NEG1, "a": prod, "q_c": 1}))
+        is_top = fresh_w(it)
+        ev(it, "append_gate", cons({"q_m": 1, "a": diff, "b": is_top}))
+        ev(it, "gate_add", cons({"q_l": NEG1, "a": low, "q_c": r_lo}))
+        rml = fresh_w(it)
+        ev(it, "gate_mul", cons({"q_m": 1, "a": is_top, "b": rml}))
+        guard = fresh_w(it)
+        ev(it, "range_check", guard, nb)
+        return UNIT
+    return c
+
+
+_TW = tuple(range(0, 255)) if _THOROUGH else (0, 1, 2, 7, 8, 31, 32, 33, 64, 127, 128, 250, 251, 253, 254)
+for nb_ in _TW:
+    u = unit(f"truncate.component_truncate[N={nb_}]", TR, "Composer::component_truncate", [SELF, ("witness", sym("witness"))], c_component_truncate(nb_),
+             consts=dict(CONSTS, N=nb_), trace_only=True, tracked=("self",))
+    u.extra_contracts = TRUNC_CON
+    u = unit(f"truncate.bind_truncation_split[bits={nb_}]", TR, "Composer::bind_truncation_split",
+             [SELF, ("input", sym("input")), ("low", sym("low")), ("num_bits", (lambda nb_=nb_: nb_))], c_bind_truncation_split(nb_),
+             consts=dict(CONSTS), trace_only=True, tracked=("self",))
+    u.extra_contracts = TRUNC_CON
+    u = unit(f"truncate.assert_canonical_truncation[bits={nb_}]", TR, "Composer::assert_canonical_truncation",
+             [SELF, ("high", sym("high")), ("low", sym("low")), ("num_bits", (lambda nb_=nb_: nb_))], c_assert_canonical_truncation(nb_),
+             consts=dict(CONSTS), trace_only=True, tracked=("self",))
+    u.extra_contracts = TRUNC_CON
